@@ -57,6 +57,12 @@ def run_scenarios(prop, ctx, jobs, oracle_fns, relevant=None, nontrivial=None):
         if relevant is not None:
             ds = [d for d in ds if relevant(d)]
         diffs += ['%s: %s' % (r['name'], d) for d in ds[:3]]
+        if 'premise_fresh' in r:
+            # premise of C01_at_most_one_entity_per_uuid, evaluated by the driver before every replayed frame
+            h, f, dup = r['premise_fresh']
+            stats['frames_with_fresh_announcements'] = stats.get('frames_with_fresh_announcements', 0) + h
+            stats['frames_outside_the_freshness_premise'] = stats.get('frames_outside_the_freshness_premise', 0) + f
+            stats['model_states_with_a_duplicate_uuid'] = stats.get('model_states_with_a_duplicate_uuid', 0) + dup
         if not r['ok']:
             continue
         tr = oracles.parse(r['trace'])
